@@ -171,8 +171,22 @@ class ConnTypes(ElabPass):
             return Valid()  # Checks out, we good
 
         if isinstance(other, AnonymousBundle):
+            # Every member of the anonymous bundle must be a member of `bundle`;
+            # a member which `bundle` does not have would otherwise be dropped without notice.
+            for key, val in other._namespace.items():
+                attr = bundle.get(key)
+                if attr is None:
+                    msg = f"Bundle `{bundle.name}` has no member `{key}`"
+                    return InvalidType(msg)
+                if isinstance(val, AnonymousBundle):
+                    if not isinstance(attr, BundleInstance):
+                        msg = f"Member `{key}` of Bundle `{bundle.name}` is not a Bundle"
+                        return InvalidType(msg)
+                    sts = self.check_bundles_compatible(attr.of, val)
+                    if not isinstance(sts, Valid):
+                        return sts
             # FIXME: checks on port-refs, signal-widths, etc.
-            # For now this just returns success; later checks may often fail where this (eventually) should.
+            # Missing members and width mismatches are reported by later passes.
             return Valid()
 
         msg = f"Invalid connection-compatibility check between {bundle} and {other}"
